@@ -63,7 +63,7 @@ def charge_case(draw, tier):
     wave_nm = sorted(draw(st.lists(gen.finite(350.0, 1100.0), min_size=nw, max_size=nw, unique=True)))
     shape = draw(gen.shape2(1, 12))
     k = draw(st.integers(0, 2**31 - 1))
-    img = np.random.default_rng(k).uniform(0, 1000, size=(nw,) + shape)
+    img = np.random.default_rng(k).uniform(0, 1000, size=(nw,) + shape) * draw(gen.scales())
     if draw(st.sampled_from([False, False, True])):
         img = np.round(img).astype(np.int64)           # integer photon counts
     return {"wave_nm": wave_nm, "img": img, "qe": draw(qe_desc(wave_nm)), "qe2": draw(qe_desc(wave_nm)),
